@@ -42,7 +42,8 @@ EXPECTED_PROBES = {'C19': ['nested_silent', 'exception_in_silent', 'reentrant_em
                            'last_before_normal', 'single_emit', 'reporter_crossing',
                            'reset_then_cross', 'silent_under_set_silent', 'callback_raises',
                            'emit_while_silenced', 'sender_filter_excludes',
-                           'unconnect_several_items', 'explicit_last_false']}
+                           'unconnect_several_items', 'explicit_last_false',
+                           'explicit_single_false']}
 
 
 # --------------------------------------------------------------------------------------------------
@@ -470,6 +471,9 @@ def execute(plan, ctx):
             kwargs = dict(op['kwargs'])
             if op['single']:
                 kwargs['single'] = True
+            elif (step + len(op['args'])) % 3 == 0:
+                kwargs['single'] = False      # "no single result" spelled out
+                ctx.probe('explicit_single_false')
             raised = None
             ret = None
             w.depth = 0
